@@ -90,6 +90,11 @@ def run(repo, rep):
     from . import identmodel
     n += identmodel.run(repo, rep, 'C17.a')
     rep.floor('C17.a', n, 50)
+    # a comment on an argument (a commented value, the '# function' / '# class' note) runs to the end of its line: nothing of the call
+    # may follow it on that line in any layout (home: C09.c, the same interpreted builder)
+    from .common import import_instances
+    rep.floor('C17.a:comments', import_instances(repo, rep, 'C09', lambda i: i.rule == 'C09.c' and i.construct.startswith('build_fncall'), 'C17.a',
+                                                 'the printed call would not parse: part of it is swallowed by a comment'), 8)
 
     # ---------------------------------------------------------------- C17.b
     n = 0
@@ -179,6 +184,17 @@ def run(repo, rep):
                     if hugged:
                         rep.check(ctxs <= {'ctx+0:inherit'} and na == 1 and nk == 0, 'C17.b', lab + ':hug-context', pca.where,
                                   'hugged sole argument printed with the caller\'s context', 'hugged call prints arguments with contexts %s' % sorted(ctxs))
+                        # only a sole argument that is *exactly* a list / dict / tuple is hugged: its literal consumes the nesting
+                        # level itself; an instance of a subclass is printed as a call of its own and would get a level for free
+                        import re as _re
+                        exact = [k for k, v in pr.facts if v and 'type(' in k and 'isinstance' not in k and (' in ' in k or ' == ' in k)]
+                        kinds_ = set(_re.findall(r'(?<![\w.(])(list|dict|tuple|set|frozenset|str|bytes|OrderedDict|deque|object)(?![\w(])', ' '.join(exact)))
+                        n += 1
+                        rep.check(bool(exact) and kinds_ <= {'list', 'dict', 'tuple'}, 'C17.b', lab + ':hug-only-exact-builtin-containers', pca.where,
+                                  'hugging decided by the exact type of the sole argument',
+                                  'the sole argument is hugged (printed without consuming a nesting level) on a path that established only (%s): an '
+                                  'instance of a subclass of list / dict / tuple is printed as a call of its own, so with a depth limit its contents '
+                                  'are cut one level too late' % pr.fact_text()[:160], nontrivial=True)
                     else:
                         rep.check(all(c.startswith('ctx+1:') for c in ctxs), 'C17.b', lab + ':nested-context', pca.where,
                                   'each argument printed one level deeper', 'arguments are printed with contexts %s' % sorted(ctxs), nontrivial=True)
@@ -260,6 +276,11 @@ def _field_selection(repo, rep, modname, fname, kind):
         def getattr_(obj, attr, node=None, _o=orig_getattr, _f=fields):
             if isinstance(obj, TypeV) and attr == '__attrs_attrs__':
                 return ListV(_f)
+            if attr == '__dataclass_fields__' and (isinstance(obj, TypeV) or obj is value):
+                # what dataclasses keeps on the class: the real fields *and* the pseudo-fields (ClassVar / InitVar) that fields()
+                # filters out
+                from engine.interp import DictV
+                return DictV([(Const('n%d' % i_), x_) for i_, x_ in enumerate(_f)] + [(Const('classvar'), Sym('pseudo_field'))])
             return _o(obj, attr, node)
         it.getattr = getattr_
         try:
